@@ -98,8 +98,9 @@ def write_evidence(ctx, level="model_checking"):
         "wall_s": round(time.time() - ctx.t0, 2),
         "violations": len([v for v in ctx.violations if not v.get("known")]),
     }
-    os.makedirs(os.path.join(VERIF, "evidence"), exist_ok=True)
-    path = os.path.join(VERIF, "evidence", ctx.pid + ".json")
+    evdir = os.environ.get("VERIF_EVIDENCE_DIR") or os.path.join(VERIF, "evidence")
+    os.makedirs(evdir, exist_ok=True)
+    path = os.path.join(evdir, ctx.pid + ".json")
     tmp = path + ".tmp%d" % os.getpid()
     with open(tmp, "w") as f:
         json.dump(ev, f, indent=1, default=str)
@@ -109,7 +110,7 @@ def write_evidence(ctx, level="model_checking"):
 
 
 def write_replay(ctx, v):
-    d = os.path.join(VERIF, "replays", ctx.pid)
+    d = os.path.join(os.environ.get("VERIF_REPLAY_DIR") or os.path.join(VERIF, "replays"), ctx.pid)
     os.makedirs(d, exist_ok=True)
     path = os.path.join(d, sig_hash(v["sig"]) + ".json")
     with open(path, "w") as f:
@@ -158,7 +159,7 @@ def finish(ctx, level="model_checking"):
     print("%s %s: states=%s transitions=%s executions=%s distinct_outcomes=%s validated=%s wall=%.1fs -> %s" % (
         ctx.pid, ctx.tier, c.get("states"), c.get("transitions"), c.get("executions"),
         c.get("distinct_outcomes"), c.get("traces_validated_against_impl"),
-        time.time() - ctx.t0, os.path.relpath(path, VERIF)))
+        time.time() - ctx.t0, path))
     return status
 
 
